@@ -25,7 +25,8 @@ Record gcfg := mkGcfg {
   k_groupBy : option opk;            (* decorator of DataFrame.groupBy *)
   k_cube : option opk;               (* decorator of DataFrame.cube *)
   k_dfagg : option opk;              (* decorator of DataFrame.agg *)
-  g_append : bool }.                 (* append= given to .select() in GroupedData.agg *)
+  g_append : bool;                   (* append= given to .select() in GroupedData.agg *)
+  g_cube_having : bool }.            (* the GROUPING SETS block carries HAVING COUNT( * ) > 0 *)
 
 (** the three ways into GroupedData.agg *)
 Inductive entry := ViaGroupBy | ViaCube | ViaDfAgg.
@@ -95,7 +96,7 @@ Section AggCompile.
   Definition cube_stage (idxs : nat -> list nat) (d : df) (keys : list (expr * string))
              (aggs : list (aexpr * string)) : list stage :=
     let d2 := entry_self ViaCube d in
-    map SB (done d2) ++ [SG (cube_gblock (g_append g) (cube_sets_with idxs (map fst keys)) (cur d2) keys aggs)].
+    map SB (done d2) ++ [SG (cube_gblock (g_append g) (g_cube_having g) (cube_sets_with idxs (map fst keys)) (cur d2) keys aggs)].
 
   (** ** decidable side condition on the generated facts *)
   Definition mem_opk (k : opk) (l : list opk) : bool := existsb (opk_eqb k) l.
@@ -355,12 +356,12 @@ Section AggProof.
     unfold all_stages, eval_x. rewrite eval_stages_app, eval_stages_blocks, fold_left_app. reflexivity.
   Qed.
 
-  (** ** cube applied to a DataFrame state: PySpark's cube of that state's result, as a multiset, whenever a
-      row reaches the aggregation *)
+  (** ** cube applied to a DataFrame state: PySpark's cube of that state's result, as a multiset -- on every input
+      when the block carries HAVING COUNT( * ) > 0, otherwise whenever a row reaches the aggregation *)
   Theorem cube_step_correct (idxs : nat -> list nat) d ics input keys aggs :
     (forall n, Permutation (idxs n) (seq 0 (S n))) ->
     cols input = ics -> wf_frame input -> InvR c d ics ->
-    rows (eval_df d input) <> [] ->
+    g_cube_having g = true \/ rows (eval_df d input) <> [] ->
     let out := eval_stages (cube_stage c g idxs d keys aggs) input in
     cols out = cols (spec_cube keys aggs (eval_df d input))
     /\ Permutation (rows out) (rows (spec_cube keys aggs (eval_df d input))).
@@ -386,6 +387,6 @@ Section AggProof.
     rewrite eval_stages_app, eval_stages_blocks. fold (source d2 input).
     cbn [eval_stages fold_left eval_stage]. rewrite Happ.
     rewrite Eev in Hne |- *.
-    exact (cube_block_is_spec idxs (cur d2) keys aggs (source d2 input) Hidx Hne).
+    exact (cube_block_is_spec idxs (g_cube_having g) (cur d2) keys aggs (source d2 input) Hidx Hne).
   Qed.
 End AggProof.
